@@ -13,8 +13,13 @@ META = {
 
 LEX = "harness/lexer_h.c"
 LANN = [("src/lexer.c", "contracts/loops/lexer.c.loops")]
-CASES = {0: "skip", 1: "char", 2: "string", 3: "number", 4: "ident", 5: "op2", 6: "other"}
-NULL_CASES = (1, 2)       # classes in which tokenize can return NULL
+CASES = {0: "skip", 1: "quoted", 2: "number", 3: "ident", 4: "rest"}
+NULL_CASES = (1,)       # classes in which tokenize can return NULL
+# after a refutation: plain bounded search (no DFCC, CBMC's own libc models, C-locale ctype table) for a concrete
+# input of <= 6 bytes that makes the real tokenize fail a built-in check / loop forever; replayed natively
+WIT = {"replayer": "lex", "override": {"enforce": None, "replace": [], "loops": False, "annotate": [], "unwind": 12,
+                                       "object_bits": None, "backends": ["minisat"], "timeout": 300, "must_have": [],
+                                       "defines": {"LEX_WIT_MAX": 6, "LEX_CTAB_CONCRETE": 1}}}
 
 
 def obligations(repo):
@@ -28,7 +33,7 @@ def obligations(repo):
         obs.append(dict(id="C09.lex.tokenize." + nm, prop="C09", harness=LEX, entry="h_tokenize", annotate=LANN,
                         include_repo=["", "src"], defines=d, enforce="tokenize", replace=["malloc"] + (os.environ.get("RPX", "").split()), loops=True,
                         unwind=12, object_bits=9, backends=["cadical"], strength="X", functions=["tokenize"], timeout=900,
-                        weight=10,
+                        weight=10, witness=WIT,
                         must_have=[r"tokenize\.postcondition", r"tokenize\.loop_invariant_step", r"tokenize\.loop_decreases",
                                    r"tokenize\.loop_invariant_base", r"libc: realloc", r"libc: strncpy"], min_checks=2000))
     obs.append(dict(id="C09.lex.cases", prop="C09", harness=LEX, entry="h_cases", include_repo=["", "src"],
